@@ -29,12 +29,24 @@ def accessor(ctx, qn, col):
     fn = ctx.fn(qn)
     ps = summarise(ctx, qn, policy=default_policy)
     valued = 0
+    from ..lib import memo_tables
+    memos = memo_tables(ctx, fn, ps)
+    for m_, vd in memos.items():
+        if vd[0] == 'unsound':
+            ctx.violation('C06.S6', '%s answers from its memo %s only what it would compute afresh' % (qn, m_), fn.site(),
+                          'the memo is keyed by %s but the stored value also depends on %s: a later query with another %s is answered with the wrong row'
+                          % (fmt(vd[1]), vd[2], '/'.join(vd[2])), key='C06.S6|%s|memo-key' % qn)
+        elif vd[0] == 'sound':
+            ctx.holds('C06.S6', '%s: memo %s is keyed by everything its entries depend on (%s)' % (qn, m_, fmt(vd[1])), fn.site())
+    sound = {m_ for m_, vd in memos.items() if vd[0] == 'sound'}
     for p in ps:
         if p.outcome == 'raise':
             continue
         v = p.value
         if v == NAN:
             continue
+        if any(c_[0] == 'cmp' and c_[1] == 'in' and v_ and c_[3][0] == 'attr' and c_[3][1] == V('self') and c_[3][2] in sound for c_, v_, _ in p.conds):
+            continue        # a hit of a sound memo equals the miss path that filled the entry: checked there
         if any(c[0][0] == 'exc' for c in p.conds):
             ctx.undecided('C06.S1', '%s returns a price only from the normal lookup path' % qn, fn.site(), cond_str(p)[:160])
             continue
@@ -49,6 +61,10 @@ def accessor(ctx, qn, col):
         for c in idx:
             if c not in distinct:
                 distinct.append(c)
+        if not distinct and not others:
+            # the row is found some other way (a streaming cursor, a bisect over a list, ...): not read by this rule
+            ctx.undecided('C06.S1', '%s locates the row by one get_indexer call [%s]' % (qn, cond_str(p)[:60]), fn.site(), 'no index lookup of the recognised family on this path')
+            continue
         if not ctx.require(len(distinct) == 1, 'C06.S1', '%s locates the row by one get_indexer call [%s]' % (qn, cond_str(p)[:60]), fn.site(),
                            '%d distinct get_indexer calls' % len(distinct), key='C06.S1|%s|one-lookup' % qn):
             continue
@@ -71,8 +87,8 @@ def accessor(ctx, qn, col):
         ok_root = root == FRAME
         used_idx = [o for o in ops if o[0] == 'sub' and any(s == g for s in T.subterms(o[1]))]
         colsub = [o for o in ops if o[0] == 'sub' and o[1][0] == 'str']
-        good = ok_root and len(used_idx) == 1 and '.iloc' in names and len(colsub) == 1 and colsub[0][1][1] in ('Bid', 'Ask')
-        extra = [x for x in names if x not in ('.iloc', '[]', '.values', 'item')]
+        good = ok_root and len(used_idx) == 1 and ('.iloc' in names or '.iat' in names) and len(colsub) == 1 and colsub[0][1][1] in ('Bid', 'Ask')
+        extra = [x for x in names if x not in ('.iloc', '.iat', '[]', '.values', 'item')]
         ctx.require(good and not extra, 'C06.S1', '%s returns the %s column of the row found, unmodified' % (qn, col), fn.site(), fmt(v)[:200],
                     key='C06.S1|%s|value' % qn)
         if colsub:
@@ -89,6 +105,14 @@ def accessor(ctx, qn, col):
                 if s in ((('<='), ZERO, target, True), ('<', target, ZERO, False), ('<', num(-1), target, True), ('<=', target, num(-1), False),
                          ('==', num(-1), target, False), ('==', target, num(-1), False)):
                     guarded = True
+        other_guard = [c for c, val, _ in p.conds if c[0] == 'cmp' and any(s_ == V('dt') for s_ in T.subterms(c)) and
+                       any(s_[0] == 'attr' and s_[1] == V('self') for s_ in T.subterms(c))]
+        if not guarded and other_guard:
+            # "before the first bar" is excluded by comparing dt with construction-time data instead of testing the sentinel: whether that data is the
+            # first quote instant is a fact about the constructor this rule does not establish
+            ctx.undecided('C06.S2', '%s uses the indexer result as a position only after excluding -1 (no bar at or before dt)' % qn, fn.site(),
+                          'guarded by %s' % [fmt(c)[:80] for c in other_guard][:2])
+            continue
         ctx.require(guarded, 'C06.S2', '%s uses the indexer result as a position only after excluding -1 (no bar at or before dt)' % qn, fn.site(),
                     'path [%s] reaches .iloc without comparing the indexer result with -1: a query before the first bar returns the LAST bar' % cond_str(p)[:120],
                     key='C06.S2|%s|sentinel' % qn)
@@ -98,14 +122,22 @@ def accessor(ctx, qn, col):
     ctx.require(len(nanpaths) >= 1, 'C06.S2', '%s answers NaN when no bar opens at or before dt' % qn, fn.site(), key='C06.S2|%s|nan' % qn)
     # no state besides the frames is read or written (memoisation-safe, history-independent)
     for p in ps:
-        ws = heap_writes(p)
-        ctx.require(not ws, 'C06.S6', '%s writes no state [%s]' % (qn, cond_str(p)[:60]), ws[0].site if ws else None, [fmt(w.loc) for w in ws][:3], key='C06.S6|%s|pure' % qn)
+        ws = [w for w in heap_writes(p) if not (loc_attr(w.loc) in sound)]
+        if ws and not any(vd[0] == 'unsound' for vd in memos.values()):
+            # state that is not a recognisable memo (a cursor, a last-seen row): answers may depend on the history of queries - not decided here
+            ctx.undecided('C06.S6', '%s writes no state [%s]' % (qn, cond_str(p)[:60]), ws[0].site, [fmt(w.loc)[:60] for w in ws][:3])
+        elif not ws:
+            ctx.holds('C06.S6', '%s writes no state besides sound memo entries [%s]' % (qn, cond_str(p)[:60]), fn.site())
         reads = set()
         for t in all_terms_of(p):
             for s in T.subterms(t):
                 if s[0] == 'attr' and s[1] == V('self'):
                     reads.add(s[2])
-        ctx.require(reads <= {'asset_bid_ask_frames'}, 'C06.S6', '%s reads only the per-asset bid/ask frames' % qn, fn.site(), sorted(reads), key='C06.S6|%s|reads' % qn)
+        extra = sorted(r_ for r_ in reads - {'asset_bid_ask_frames'} - sound if fn.cls is not None and ctx.M.field_written_outside_init(fn.cls, r_))
+        if extra and not any(vd[0] == 'unsound' for vd in memos.values()):
+            ctx.undecided('C06.S6', '%s reads only the per-asset bid/ask frames and other construction-time data' % qn, fn.site(), extra)
+        else:
+            ctx.holds('C06.S6', '%s reads only the per-asset bid/ask frames and other construction-time data' % qn, fn.site())
 
 
 _cols = {}
@@ -140,15 +172,21 @@ def converter(ctx):
         ops = chain_ops(v)
         names = op_names(ops)
         tag = cond_str(p)[:50]
-        ctx.require(ops[0][1] == V('bar_df') and len(names) > 1 and names[0] == 'sort_index', 'C06.S3', 'the bar frame is sorted by date before anything else [%s]' % tag,
-                    fn.site(), names[:4], key='C06.S3|sort-first')
+        pipeline_known = ops[0][1] == V('bar_df')
+        if not pipeline_known:
+            # the frame travels through helper objects / records this rule does not read: the order of the pandas steps is not claimed either way
+            ctx.undecided('C06.S3', 'the converter is one pandas pipeline starting at the bar frame [%s]' % tag, fn.site(), 'chain root %s, steps %s' % (fmt(ops[0][1])[:60], names[:5]))
+        else:
+            ctx.require(len(names) > 1 and names[0] == 'sort_index', 'C06.S3', 'the bar frame is sorted by date before anything else [%s]' % tag,
+                        fn.site(), names[:4], key='C06.S3|sort-first')
         back = meth_calls_in(p, BACKFILLS)
         fill_kw = [c for c in meth_calls_in(p, {'fillna', 'reindex'}) if any(k == 'method' and x[0] == 'str' and x[1] not in PAD for k, x in c[3])]
         ctx.require(not back and not fill_kw, 'C06.S3', 'missing values are never filled from later rows [%s]' % tag, fn.site(),
                     [fmt(c)[-60:] for c in back + fill_kw], key='C06.S3|no-backfill')
         fills = [i for i, n in enumerate(names) if n in ('ffill', 'pad') or (n == 'fillna')]
-        ctx.require(len(fills) == 1, 'C06.S3', 'missing values are replaced by the previous observation (one forward fill) [%s]' % tag, fn.site(), names,
-                    key='C06.S3|ffill')
+        if pipeline_known or fills:
+            ctx.require(len(fills) == 1, 'C06.S3', 'missing values are replaced by the previous observation (one forward fill) [%s]' % tag, fn.site(), names,
+                        key='C06.S3|ffill')
         # row order at the time of the fill
         if fills:
             before = names[:fills[0]]
@@ -168,7 +206,8 @@ def converter(ctx):
         tail = names[fills[0] + 1:] if fills else names
         si = [o for o in ops if o[0] == 'meth' and o[1] == 'set_index']
         ok = bool(si) and si[-1][2][:1] == (('str', 'Date'),) and 'sort_index' in tail and tail.index('sort_index') > tail.index('set_index')
-        ctx.require(ok, 'C06.S3', 'the frame is indexed by the timestamp column and sorted by it [%s]' % tag, fn.site(), tail, key='C06.S3|index-sorted')
+        if pipeline_known or si:
+            ctx.require(ok, 'C06.S3', 'the frame is indexed by the timestamp column and sorted by it [%s]' % tag, fn.site(), tail, key='C06.S3|index-sorted')
         # S4: Open rows +14:30, Close rows +21:00
         offs = row_offsets(p)
         ctx.require(offs == {'Open': (14, 30), 'Close': (21, 0)}, 'C06.S4', 'open rows are stamped 14:30 and close rows 21:00 [%s]' % tag, fn.site(), offs,
@@ -189,17 +228,31 @@ def converter(ctx):
         adj = [w for w in heap_writes(p) if w.loc[0] == 'sub' and w.loc[2] == ('str', 'Adj Open')]
         adjusting = any(fmt(c) == 'self.adjust_prices' and vv for c, vv, _ in p.conds)
         if adjusting:
-            okadj = False
-            if len(adj) == 1:
-                fr = adj[0].loc[1]
-                col = lambda c: ('sub', fr, ('str', c))
-                okadj = T.teq(adj[0].value, T.t_mul(T.t_div(col('Adj Close'), col('Close')), col('Open')))
+            # wherever the adjusted open is computed (a column write, an .assign, a table of per-column builders): some term multiplies an Open column by a ratio
+            # of the Adj Close and Close columns of the same frame; it must be (Adj Close / Close) x Open
+            cands = []
+            for t_ in all_terms_of(p):
+                for s_ in T.subterms(t_):
+                    if s_[0] == 'rat':
+                        cols_ = {x_[2][1]: x_[1] for x_ in T.subterms(s_) if x_[0] == 'sub' and x_[2][0] == 'str' and x_[2][1] in ('Open', 'Adj Close', 'Close')}
+                        if {'Open', 'Adj Close'} <= set(cols_) and s_ not in cands:
+                            cands.append((s_, cols_['Open']))
+            okadj = None
+            for s_, fr in cands:
+                col = lambda c, fr=fr: ('sub', fr, ('str', c))
+                if T.teq(s_, T.t_mul(T.t_div(col('Adj Close'), col('Close')), col('Open'))):
+                    okadj = True
+            if okadj is None and cands:
+                okadj = False
             ctx.require(okadj, 'C06.S5', 'adjusted open = (adjusted close / close) x open, row by row', adj[0].site if adj else fn.site(),
-                        fmt(adj[0].value)[-220:] if adj else None, key='C06.S5|adjust')
+                        fmt(cands[0][0])[-220:] if cands else 'no product of an Open column with an adjustment ratio was found', key='C06.S5|adjust')
             ren = [w for w in heap_writes(p) if w.loc[0] == 'attr' and w.loc[2] == 'columns' and w.value == ('list', (('str', 'Open'), ('str', 'Close')))]
             want = ('list', (('str', 'Adj Open'), ('str', 'Adj Close')))
             sel = [o for o in ops if o[0] == 'sub' and ((o[1][0] == 'tuple' and len(o[1][1]) == 2 and o[1][1][1] == want) or o[1] == want)]
-            ctx.require(len(ren) == 1 and len(sel) == 1, 'C06.S5', 'adjusted open/close replace open/close in that order', fn.site(), key='C06.S5|adjust-cols')
+            if ren or sel or pipeline_known:
+                ctx.require(len(ren) == 1 and len(sel) == 1, 'C06.S5', 'adjusted open/close replace open/close in that order', fn.site(), key='C06.S5|adjust-cols')
+            else:
+                ctx.undecided('C06.S5', 'adjusted open/close replace open/close in that order', fn.site(), 'no column renaming of the recognised form')
         else:
             ctx.require(not adj, 'C06.S5', 'no adjustment when adjust_prices is off', fn.site(), key='C06.S5|no-adjust')
         ctx.sample({'rule': 'C06.S3', 'path': tag, 'pipeline': names})
@@ -280,6 +333,12 @@ def handler(ctx):
             if v == NAN or v[0] == 'havoc':
                 continue
             ok = v[0] == 'call' and v[1] == ('fn', 'CSVDailyBarDataSource.' + src) and v[2][1:] == (V('dt'), V('asset_symbol'))
+            mentions = any(s_[0] == 'call' and s_[1][0] == 'fn' and s_[1][1].endswith('.' + src) for s_ in T.subterms(v))
+            if not ok and not mentions:
+                # the answer reaches the caller by a route this rule does not read (a generator of quotes consumed by next(), ...): nothing is claimed
+                ctx.undecided('C06.S6', '%s returns a data source\'s %s(dt, asset) unmodified [%s]' % (qn, src, cond_str(p)[:50]), fn.site(), fmt(v)[:160])
+                got = got or None
+                continue
             ctx.require(ok, 'C06.S6', '%s returns a data source\'s %s(dt, asset) unmodified [%s]' % (qn, src, cond_str(p)[:50]), fn.site(), fmt(v)[:160],
                         key='C06.S6|%s|value' % qn)
             got = got or ok
@@ -297,7 +356,10 @@ def handler(ctx):
                                   key='C06.S6|%s|nan-test' % qn)
                 else:
                     ctx.require(tested is True, 'C06.S6', '%s accepts a source value iff it is not NaN' % qn, fn.site(), cond_str(p)[:160], key='C06.S6|%s|nan-test' % qn)
-        ctx.require(got, 'C06.S6', '%s derives its answer from the data sources' % qn, fn.site(), key='C06.S6|%s|derives' % qn)
+        if got is None:
+            pass
+        else:
+            ctx.require(got, 'C06.S6', '%s derives its answer from the data sources' % qn, fn.site(), key='C06.S6|%s|derives' % qn)
         for p in ps:
             for e in p.flat_events():
                 if e.kind == 'call' and any(c.endswith('.' + src) for c in e.callee):
